@@ -4,6 +4,8 @@ set -e
 cd "$(dirname "$0")/.."
 export CARGO_NET_OFFLINE=true
 [ -f harness/Cargo.lock ] || cp /repo/Cargo.lock harness/Cargo.lock
+python3 translator/gen_tables.py
 (cd lean && lake build Orca orca_model)
-(cd harness && RUSTFLAGS="--cfg orca_verif" cargo build --release --offline --quiet)
+python3 translator/gen_tables.py
+(cd harness && cargo build --release --offline --quiet)
 echo setup-ok
